@@ -65,6 +65,13 @@ theorem plain_refine (hash : K → Nat) (thr : Nat → Nat) (d : PDesc K V) (cap
     Outs.equiv (PMap.run hash thr d (PMap.new thr cap) ops).2 (PS.run d {} ops).2 :=
   (PMap.plain_refine_run thr ops (PMap.Rel.new (hash := hash) (thr := thr) (d := d) cap)).2
 
+/-- … from any state related to a finite map (not only a fresh one): outputs agree and the simulation is kept -/
+theorem plain_refine_from (hash : K → Nat) (thr : Nat → Nat) (d : PDesc K V) (m : PMap K V) (s : PS K V)
+    (ops : List (POp K V)) (h : PMap.Rel hash d m s) :
+    PMap.Rel hash d (PMap.run hash thr d m ops).1 (PS.run d s ops).1 ∧
+    Outs.equiv (PMap.run hash thr d m ops).2 (PS.run d s ops).2 :=
+  PMap.plain_refine_run thr ops h
+
 /-- lookups and size agree in every reachable state -/
 theorem lookup_and_size (hash : K → Nat) (d : PDesc K V) (m : PMap K V) (s : PS K V) (h : PMap.Rel hash d m s) :
     (∀ k, m.tab.get hash k = AL.get s.ents k) ∧ m.count = s.ents.length := ⟨h.get, h.count⟩
